@@ -52,6 +52,7 @@ func layouts() []layout {
 			itemFeature("multiline", i, func(it *DItem) { it.Expr = "[\n  1, # one\n  2,\n]" }),
 			itemFeature("object", i, func(it *DItem) { it.Expr = "{\n  k = v /* in */\n}" }),
 			itemFeature("template", i, func(it *DItem) { it.Expr = `"a${b}c$${d}"` }),
+			itemFeature("travcmt", i, func(it *DItem) { it.Expr = "foo /* why */ .bar[true]" }),
 		)
 	}
 	blk := func(name string, f func(it *DItem)) layout { return itemFeature(name, 1, f) }
@@ -99,7 +100,8 @@ func canonOps() []OpM {
 	obj := &V{K: "obj", Keys: []string{"k", "for"}, L: []V{{K: "num", N: -3}, {K: "list", L: []V{{K: "bool", B: true}}}}}
 	hd := &RawB{Fn: "lex", Src: "<<EOT\nraw ${r}\nEOT"}
 	ml := &RawB{Fn: "lex", Src: "[\n  1,\n  2,\n]"}
-	tr := []TravStep{{Attr: "f"}, {Str: strp("k")}, {Num: i64p(2)}}
+	tru := true
+	tr := []TravStep{{Attr: "f"}, {Str: strp("k")}, {Num: i64p(2)}, {Bool: &tru}, {Null: true}}
 	in1, in2 := []int{0}, []int{0, 0}
 	return []OpM{
 		{Kind: "set_value", Name: "a", Val: str},
